@@ -10,6 +10,8 @@ def main():
     eng = Engine(ir)
     for e in eng.errors:
         print("CONTRACT ERROR", e)
+    if eng.errors:
+        return
     pat = sys.argv[2] if len(sys.argv) > 2 else ""
     for d in eng.decls:
         if d.kind not in ("func", "lemma", "coverage") or pat not in d.name:
